@@ -38,6 +38,12 @@ def child_env(rng, hashseed, perturb=True):
         env['COLUMNS'] = str(rng.choice([20, 80, 200]))
         env['HOME'] = rng.choice(['/nonexistent', '/', '/root'])
         env['LC_NUMERIC'] = rng.choice(['C', 'de_DE.UTF-8', 'fr_FR.UTF-8'])
+        # the interpreter's warning configuration (never 'error': turning
+        # numpy's RuntimeWarnings into exceptions is what that setting asks for)
+        w = rng.choice([None, None, 'ignore', 'always', 'default', 'once'])
+        if w:
+            env['PYTHONWARNINGS'] = w
+            S.fired('warning_filter_varied')
         for i in range(rng.randrange(0, 4)):
             env['VERIF_NOISE_%d' % i] = 'x' * rng.randrange(1, 300)
         S.fired('env_perturb')
